@@ -519,15 +519,16 @@ fn cps(line: &str) -> String {
     format!("(l {})", v.join(" ")).replace(" )", ")")
 }
 
-/// the lines `GitignoreBuilder::add` hands to `add_line`: `BufRead::lines()` up to the first chunk that is not UTF-8
-/// (there `add` stops reading)
+/// the lines `GitignoreBuilder::add` hands to `add_line`: `BufRead::lines()`; a chunk that is not UTF-8 is skipped
+/// (234ccee; it still counts as a line), one U+FEFF is dropped from the line with index 0 (e983cb6)
 fn content_lines(content: &[u8]) -> Vec<String> {
     let mut out = vec![];
-    for chunk in content.split_inclusive(|b| *b == b'\n') {
+    for (i, chunk) in content.split_inclusive(|b| *b == b'\n').enumerate() {
         match std::str::from_utf8(chunk) {
-            Err(_) => break,
+            Err(_) => continue,
             Ok(s) => {
                 let s = s.strip_suffix('\n').map(|s| s.strip_suffix('\r').unwrap_or(s)).unwrap_or(s);
+                let s = if i == 0 { s.strip_prefix('\u{feff}').unwrap_or(s) } else { s };
                 out.push(s.to_string());
             }
         }
@@ -721,11 +722,6 @@ fn reader_mechanism(c: &Case, p: &[u8], is_dir: bool, repair: fn(&[u8]) -> Optio
     b.len() == 2 && b[0] == b[1]
 }
 
-/// the file starts with a UTF-8 byte order mark: git skips it, ripgrep makes it part of the first pattern
-fn repair_bom(content: &[u8]) -> Option<Vec<u8>> {
-    content.strip_prefix(&[0xef, 0xbb, 0xbf][..]).map(|r| r.to_vec())
-}
-
 /// the file does not end in LF and its last byte is CR: git supplies the LF and then drops the CR before it,
 /// `BufRead::lines` leaves the CR in the last line (and since 5031338 `add_line` no longer trims it)
 fn repair_cr_at_eof(content: &[u8]) -> Option<Vec<u8>> {
@@ -738,8 +734,8 @@ fn repair_cr_at_eof(content: &[u8]) -> Option<Vec<u8>> {
     }
 }
 
-/// a line is not valid UTF-8: `GitignoreBuilder::add` stops reading there (error, `break`), so the REST of the file is
-/// lost; git reads on (patterns are byte strings)
+/// a line is not valid UTF-8: `GitignoreBuilder::add` cannot use it as a glob and skips it (since 234ccee only that
+/// line, the reading goes on); for git the line is a pattern of bytes like any other (it matches a Latin-1 file name)
 fn repair_invalid_utf8(content: &[u8]) -> Option<Vec<u8>> {
     let mut out = vec![];
     let mut bad = false;
@@ -760,7 +756,7 @@ fn repair_invalid_utf8(content: &[u8]) -> Option<Vec<u8>> {
 fn repair_all_reading(content: &[u8]) -> Option<Vec<u8>> {
     let mut cur = content.to_vec();
     let mut any = false;
-    for f in [repair_bom as fn(&[u8]) -> Option<Vec<u8>>, repair_invalid_utf8, repair_cr_at_eof] {
+    for f in [repair_invalid_utf8 as fn(&[u8]) -> Option<Vec<u8>>, repair_cr_at_eof] {
         if let Some(r) = f(&cur) {
             cur = r;
             any = true;
@@ -774,20 +770,17 @@ fn repair_all_reading(content: &[u8]) -> Option<Vec<u8>> {
 }
 
 fn classify_path(c: &Case, p: &[u8], is_dir: bool, drv: &mut Driver) -> &'static str {
-    if reader_mechanism(c, p, is_dir, repair_bom, drv) {
-        return "bom-not-skipped";
-    }
     if reader_mechanism(c, p, is_dir, repair_cr_at_eof, drv) {
         return "cr-at-eof-kept";
     }
     if reader_mechanism(c, p, is_dir, repair_invalid_utf8, drv) {
-        return "invalid-utf8-line-stops-reading";
+        return "undecodable-line-dropped";
     }
     // several reading-level causes in the files above the path at once: only removing all of them restores the
     // agreement; attributed to the first cause present
     if reader_mechanism(c, p, is_dir, repair_all_reading, drv) {
         let above = |d: &Vec<u8>| d.is_empty() || (p.len() > d.len() + 1 && p.starts_with(d) && p[d.len()] == b'/');
-        for (name, f) in [("bom-not-skipped", repair_bom as fn(&[u8]) -> Option<Vec<u8>>), ("invalid-utf8-line-stops-reading", repair_invalid_utf8), ("cr-at-eof-kept", repair_cr_at_eof)] {
+        for (name, f) in [("undecodable-line-dropped", repair_invalid_utf8 as fn(&[u8]) -> Option<Vec<u8>>), ("cr-at-eof-kept", repair_cr_at_eof)] {
             if c.ignores.iter().any(|(d, content)| above(d) && f(content).is_some()) {
                 return name;
             }
